@@ -444,6 +444,8 @@ func harnesses(r *fw.Run) []fw.HarnessSpec {
 		ver := []wallet.Version{wallet.V4R2, wallet.V5R1, wallet.V3R2}[c.ChooseFree(3)]
 		waiting := []time.Duration{time.Second, 0}[c.ChooseFree(2)]
 		sendFails := c.Choose(2) == 1
+		// the message lifetime is independent of the confirmation window: a minute, shorter than the window, none at all
+		lifetime := []time.Duration{time.Minute, 350 * time.Millisecond, 0}[c.ChooseFree(3)]
 		const sent = 41
 		nPolls := 12
 		polls := make([]poll, nPolls)
@@ -465,8 +467,8 @@ func harnesses(r *fw.Run) []fw.HarnessSpec {
 			}
 			desc += fmt.Sprint(k)
 		}
-		c.Case([]byte(fmt.Sprintf("conf/%d/%v/%v/%s", ver, waiting, sendFails, desc)), true)
-		c.Sample(map[string]any{"version": ver.ToString(), "waiting": waiting.String(), "send_fails": sendFails, "poll_script": desc})
+		c.Case([]byte(fmt.Sprintf("conf/%d/%v/%v/%v/%s", ver, waiting, sendFails, lifetime, desc)), true)
+		c.Sample(map[string]any{"version": ver.ToString(), "waiting": waiting.String(), "send_fails": sendFails, "message_lifetime": lifetime.String(), "poll_script": desc})
 		c.Label("%s waiting=%v sendFails=%v polls=%s", ver.ToString(), waiting, sendFails, desc)
 		c.Try("panic:confirmation", func() {
 			bc := &chain{polls: polls}
@@ -483,7 +485,7 @@ func harnesses(r *fw.Run) []fw.HarnessSpec {
 			bc.start = start
 			bc.slot = waiting / 10
 			body := tb.NewCell()
-			_, err = w.RawSendV2(context.Background(), sent, start.Add(time.Minute), []wallet.RawMessage{{Message: body, Mode: 3}}, nil, waiting)
+			_, err = w.RawSendV2(context.Background(), sent, start.Add(lifetime), []wallet.RawMessage{{Message: body, Mode: 3}}, nil, waiting)
 			elapsed := vtime.Since(start)
 			if sendFails {
 				if err == nil {
